@@ -60,3 +60,107 @@ def ev(e, env):
         return tuple(ev(x, env) for x in e.elts)
     raise Unknown(ast.unparse(e))
 
+
+
+def _ev_ext(e, env):
+    """expression forms needed by run_block on top of ``ev``: slices, tuple concatenation / integer arithmetic,
+    ``seq.index(x)``, ``tuple(<generator>)``, generator / list comprehensions with one generator, conditional expressions."""
+    if isinstance(e, ast.Subscript) and isinstance(e.slice, ast.Slice):
+        v = _ev_ext(e.value, env)
+        lo = _ev_ext(e.slice.lower, env) if e.slice.lower is not None else None
+        hi = _ev_ext(e.slice.upper, env) if e.slice.upper is not None else None
+        st = _ev_ext(e.slice.step, env) if e.slice.step is not None else None
+        return v[lo:hi:st]
+    if isinstance(e, ast.Subscript):
+        v = _ev_ext(e.value, env)
+        i = _ev_ext(e.slice, env)
+        try:
+            return v[i]
+        except (IndexError, TypeError, KeyError) as exc:
+            raise Unknown(f'{ast.unparse(e)} fails: {exc!r}')
+    if isinstance(e, ast.BinOp) and isinstance(e.op, (ast.Add, ast.Sub)):
+        a, b = _ev_ext(e.left, env), _ev_ext(e.right, env)
+        return a + b if isinstance(e.op, ast.Add) else a - b
+    if isinstance(e, ast.UnaryOp) and isinstance(e.op, ast.USub):
+        return -_ev_ext(e.operand, env)
+    if isinstance(e, ast.Call) and isinstance(e.func, ast.Attribute) and e.func.attr == 'index' and len(e.args) == 1:
+        return _ev_ext(e.func.value, env).index(_ev_ext(e.args[0], env))
+    if isinstance(e, ast.Call) and isinstance(e.func, ast.Name) and e.func.id in ('tuple', 'list', 'as_tuple') and len(e.args) == 1:
+        return tuple(_ev_ext(e.args[0], env))
+    if isinstance(e, ast.Call) and isinstance(e.func, ast.Name) and e.func.id == 'enumerate' and len(e.args) == 1 and not e.keywords:
+        return tuple(enumerate(_ev_ext(e.args[0], env)))
+    if isinstance(e, ast.Call) and isinstance(e.func, ast.Name) and e.func.id == 'zip' and not e.keywords:
+        return tuple(zip(*[_ev_ext(a, env) for a in e.args]))
+    if isinstance(e, ast.Call) and isinstance(e.func, ast.Name) and e.func.id == 'range' and not e.keywords:
+        return tuple(range(*[_ev_ext(a, env) for a in e.args]))
+    if isinstance(e, ast.Call) and isinstance(e.func, ast.Name) and e.func.id == 'len' and len(e.args) == 1:
+        return len(_ev_ext(e.args[0], env))
+    if isinstance(e, (ast.GeneratorExp, ast.ListComp)) and len(e.generators) == 1:
+        g = e.generators[0]
+        out = []
+        for x in _ev_ext(g.iter, env):
+            env2 = dict(env)
+            _bind(g.target, x, env2)
+            if all(_ev_ext(i, env2) for i in g.ifs):
+                out.append(_ev_ext(e.elt, env2))
+        return tuple(out)
+    if isinstance(e, ast.IfExp):
+        return _ev_ext(e.body, env) if _ev_ext(e.test, env) else _ev_ext(e.orelse, env)
+    if isinstance(e, ast.Tuple):
+        return tuple(_ev_ext(x, env) for x in e.elts)
+    if isinstance(e, ast.Compare) and len(e.ops) == 1 and isinstance(e.ops[0], (ast.In, ast.NotIn)):
+        a, b = _ev_ext(e.left, env), _ev_ext(e.comparators[0], env)
+        return (a in b) if isinstance(e.ops[0], ast.In) else (a not in b)
+    if isinstance(e, (ast.BoolOp, ast.Compare)) or (isinstance(e, ast.UnaryOp) and isinstance(e.op, ast.Not)):
+        # re-use ev's operators but evaluate the operands with the extended forms
+        if isinstance(e, ast.BoolOp):
+            vals = [_ev_ext(v, env) for v in e.values]
+            return all(vals) if isinstance(e.op, ast.And) else any(vals)
+        if isinstance(e, ast.UnaryOp):
+            return not _ev_ext(e.operand, env)
+        tmp = {'__l': _ev_ext(e.left, env), '__r': _ev_ext(e.comparators[0], env)}
+        return ev(ast.Compare(left=ast.Name(id='__l'), ops=e.ops, comparators=[ast.Name(id='__r')]), tmp)
+    return ev(e, env)
+
+
+def _bind(target, value, env):
+    if isinstance(target, ast.Name):
+        env[target.id] = value
+    elif isinstance(target, (ast.Tuple, ast.List)):
+        stars = [i for i, t in enumerate(target.elts) if isinstance(t, ast.Starred)]
+        value = tuple(value)
+        if not stars:
+            if len(value) != len(target.elts):
+                raise Unknown('unpack length mismatch')
+            for t, v in zip(target.elts, value):
+                _bind(t, v, env)
+        else:
+            k = stars[0]
+            after = len(target.elts) - k - 1
+            if len(value) < len(target.elts) - 1:
+                raise Unknown('unpack length mismatch')
+            for t, v in zip(target.elts[:k], value[:k]):
+                _bind(t, v, env)
+            _bind(target.elts[k].value, tuple(value[k:len(value) - after]), env)
+            for t, v in zip(target.elts[k + 1:], value[len(value) - after:]):
+                _bind(t, v, env)
+    else:
+        raise Unknown(ast.unparse(target))
+
+
+def run_block(stmts, env):
+    """Execute straight-line assignments / if statements over tuples, strings and integers in ``env`` (modified in place)."""
+    for st in stmts:
+        if isinstance(st, ast.Assign):
+            v = _ev_ext(st.value, env)
+            for t in st.targets:
+                _bind(t, v, env)
+        elif isinstance(st, ast.If):
+            run_block(st.body if _ev_ext(st.test, env) else st.orelse, env)
+        elif isinstance(st, ast.Expr) and isinstance(st.value, ast.Constant):
+            continue
+        elif isinstance(st, ast.Pass):
+            continue
+        else:
+            raise Unknown(ast.unparse(st)[:60])
+    return env
